@@ -432,14 +432,14 @@ impl MessageEncoder {
             .encode(buffer)
             .map_err(|error| StunEncodeError(StunErrorLevel::Message(StunMessageError(error))))?;
 
-        let mut length = 0;
-        BigEndian::write_u16(&mut buffer[2..4], length);
+        let mut length: usize = 0;
+        BigEndian::write_u16(&mut buffer[2..4], 0);
         BigEndian::write_u32(&mut buffer[4..8], MAGIC_COOKIE.as_u32());
         buffer[8..20].copy_from_slice(msg.transaction_id().as_bytes());
 
         for (position, attr) in msg.attributes().iter().enumerate() {
-            let coded_index = length + MESSAGE_HEADER_SIZE as u16;
-            let (raw_msg, attributes) = buffer.split_at_mut(coded_index.into());
+            let coded_index = length + MESSAGE_HEADER_SIZE;
+            let (raw_msg, attributes) = buffer.split_at_mut(coded_index);
 
             // Encode attribute
             // Check we have room for attribute type and length
@@ -497,14 +497,15 @@ impl MessageEncoder {
             )?;
 
             // Update length taking into account padding
-            length += u16::try_from(attr_size + padding_size).map_err(|error| {
+            length += attr_size + padding_size;
+            let msg_length = u16::try_from(length).map_err(|error| {
                 StunEncodeError(StunErrorLevel::Attribute(StunAttributeError {
                     attr_type: Some(attr.attribute_type()),
                     position,
                     error: StunError::from_error(StunErrorType::InvalidParam, Box::new(error)),
                 }))
             })?;
-            BigEndian::write_u16(&mut raw_msg[2..4], length);
+            BigEndian::write_u16(&mut raw_msg[2..4], msg_length);
 
             // Post process (only attribute value)
             let coded_value =
@@ -519,7 +520,7 @@ impl MessageEncoder {
             })?;
         }
 
-        Ok((length + MESSAGE_HEADER_SIZE as u16).into())
+        Ok(length + MESSAGE_HEADER_SIZE)
     }
 }
 
